@@ -439,6 +439,12 @@ def check_walk(repo: Repo, res: Result, it: M.Interp, internal: set[str]) -> "bo
         k = disj(p.guard for p in sink.imports.parts if p.kind == "lit" and any(i is ci for i in p.items))
         if any(p.kind != "lit" for p in sink.imports.parts):
             return None  # the import list is not made of the concrete imports only
+        gaps = not_understood(itc, k)
+        if gaps:
+            # a value the interpreter had to leave open decides here (a table look-up, an opaque call ..): which names the
+            # patterns are applied to cannot be read off this formula - no verdict from the unrolling
+            res.observe(f"C10.R4 ancestor walk: the retention of the import of `{ci.name}` contains tests the model does not know ({', '.join(gaps[:4])}) - no verdict from the unrolling")
+            return None
         lineage = [ci.name, *reversed(M.dotted_ancestors(ci.name))]
         excl = {n: f"EXCL({n!r})" for n in lineage}
         others = sorted(atoms_of(k) - set(excl.values()))
@@ -472,7 +478,12 @@ def check_walk(repo: Repo, res: Result, it: M.Interp, internal: set[str]) -> "bo
         if c not in cuts:
             cuts.append(c)
     if not any(t for _n, t, _sk, _x, _k in verdicts):
-        return None  # no pattern test on any concrete name met: the symbolic obligations speak
+        # no pattern test on any concrete name has a say.  When every retention condition is made of facts about the options and
+        # about the concrete names only (nothing left open, no pattern test in another spelling), that is the verdict: the
+        # patterns are never consulted.  Otherwise the symbolic obligations speak.
+        names_ok = {f"{kind}({n!r})" for kind in ("EXCL", "INT") for n in itc.CONCRETE_NAMES} | {"FLAG", "HAS"}
+        if not all(atoms_of(k_) <= names_ok for _n, _t, _sk, _x, k_ in verdicts) or not any("HAS" in atoms_of(k_) for _n, _t, _sk, _x, k_ in verdicts):
+            return None
     bad = [(n, t, sk) for n, t, sk, _x, _k in verdicts if sk]
     construct = sink_key + " [include mode: every ancestor consulted]"
     if bad:
